@@ -70,10 +70,11 @@ class C23(Prop):
     SHARD_TIMEOUT = 2400
     COQ_SHARD = 35
     LEVEL_TEXT = (
-        "Coq theorems (27, closed under the global context) over a byte-level model of the async tar reader and "
+        "Coq theorems (28, closed under the global context) over a byte-level model of the async tar reader and "
         "writer (TellableStreamWrapper.read, SeekableStreamReaderWrapper.seek, FileStreamReaderWrapper.read, "
         "copyfileobj/write, TarInfo.frombuf incl. checksum/octal fields/ustar prefix, GNU long names, PAX extended headers (path/linkpath/size), "
-        "AioTarStream.next, extract_tar_stream; TarInfo.tobuf(GNU_FORMAT), addfile, _close): (a) outcome and "
+        "AioTarStream.next, extract_tar_stream incl. the rebinding of dst to dst/<basename> when a directory lands in an "
+        "existing directory; TarInfo.tobuf(GNU_FORMAT), addfile, _close): (a) outcome and "
         "destination tree depend only on the concatenation of the chunks (any two chunkings, unbounded archive); "
         "(b) a regular member that extract_tar_stream completes has exactly its h_size bytes on both copy paths, for "
         "any stream; a stream that ends inside the data or padding of a member ends in ReadError (one-member "
@@ -99,8 +100,8 @@ class C23(Prop):
             "(GNU/PAX/USTAR), GNU tar (gnu/posix/ustar/oldgnu) or the async writer, fed to the real "
             "extract_tar_stream through a fake StreamWrapper with fixed chunk sizes {1,2,3,7,64,511,512,513,4096} or "
             "random size cycles, optionally cut at a header/ext-header/data/padding/marker boundary class or with a "
-            "corrupted header, in the three destination configurations (dir->absent, file->absent, file->existing "
-            "dir); write: real trees archived by the async writer and read back by Python tarfile, GNU tar and the "
+            "corrupted header, in the four destination configurations (dir->absent, dir->existing dir [dst rebound to "
+            "dst/<basename>], file->absent, file->existing dir); write: real trees archived by the async writer and read back by Python tarfile, GNU tar and the "
             "async reader. Non-trivial = chunk size < 4096 or a fault or a long name or >= 3 entries. Distinct = "
             "distinct canonical JSON. Big files (up to 3 MiB) are oracle-only; PAX archives (Python PAX_FORMAT, GNU tar --format=posix), symlink and hard-link members are in the model's domain.")
     TRUSTED = ("model: TarStream/Model.v is hand-written; CPython's tarfile (frombuf and tobuf(GNU_FORMAT) are re-modelled and tied by the correspondence), "
@@ -220,9 +221,9 @@ class C23(Prop):
         cases = []
         for i in range(n):
             r = rng.random()
-            cfg = "A" if r < 0.6 else ("B" if r < 0.8 else "C")
+            cfg = "A" if r < 0.48 else ("D" if r < 0.64 else ("B" if r < 0.82 else "C"))
             oracle_only = rng.random() < 0.3
-            links = cfg == "A" and rng.random() < (0.5 if oracle_only else 0.3)
+            links = cfg in ("A", "D") and rng.random() < (0.5 if oracle_only else 0.3)
             big = oracle_only and not links and rng.random() < 0.25
             if oracle_only:
                 w = rng.choice(["py-pax", "gnutar-posix", "py-gnu", "gnutar-gnu", "aio-gnu"])
@@ -231,7 +232,7 @@ class C23(Prop):
                                 "gnutar-oldgnu", "aio-gnu", "py-pax", "py-pax", "gnutar-posix", "gnutar-posix"])
             if links and w == "aio-gnu":
                 w = "py-gnu"
-            tree = self._tree(rng, cfg != "A", links, big, maxn=5 if big else 8)
+            tree = self._tree(rng, cfg not in ("A", "D"), links, big, maxn=5 if big else 8)
             c = {"f": "extract", "w": w, "tree": tree, "chunks": self._chunks(rng), "cfg": cfg,
                  "buf": rng.choice([None, None, 1, 7, 100, 512, 1000, 4096, 65536]),
                  "fault": self._fault(rng, tree) if rng.random() < 0.45 and not big else None}
@@ -519,7 +520,7 @@ class C23(Prop):
         lay = self._layout(ar0)
         ar, fcls = self._apply_fault(ar0, lay, c["fault"])
         dst = os.path.join(tmp, "out")
-        if c["cfg"] == "C":
+        if c["cfg"] in ("C", "D"):
             os.mkdir(dst)
         src = "/remote/some dir/" + base.decode("utf-8", "surrogateescape")
         cwd = os.getcwd()
@@ -582,7 +583,7 @@ class C23(Prop):
         out = {}
         for e in tree:
             n = nm(e)
-            if cfg == "C":
+            if cfg in ("C", "D"):
                 rel = n
             else:
                 rel = b"" if n == base else n[len(base) + 1:]
@@ -596,7 +597,7 @@ class C23(Prop):
             elif e["k"] == "h":
                 t = by_name[e["t"]]
                 out[rel] = ["f", t["m"], b64(rle_bytes(t["c"]))]
-        if cfg == "C":
+        if cfg in ("C", "D"):
             out[""] = ["d", 0o755, ""]
         return out
 
@@ -707,7 +708,7 @@ class C23(Prop):
                 return None
             sizes = [s for s in c["chunks"] if s > 0] or [BIG]
             return (f"CExtract {coq_rle(unb64(o['ar']))} {coq_list([coq_N(s) for s in sizes])} "
-                    f"{coq_bytes(nm(c['tree'][0]))} {coq_bool(c['cfg'] == 'C')} {coq_opt(c['buf'], coq_N)} "
+                    f"{coq_bytes(nm(c['tree'][0]))} {coq_bool(c['cfg'] in ('C', 'D'))} {coq_opt(c['buf'], coq_N)} "
                     f"{coq_N(err)} {tr}")
         if "py" not in o:
             return None
